@@ -289,6 +289,7 @@ func init() {
 		c.Run.Set("core_alphabet", int64(a.nCore+1))
 		c.Run.Set("core_depth_bound", int64(depth+1))
 		c.Run.Set("core_states_per_depth", s2.PerDepth)
+		c01Corpus(c)
 		c.Run.Sample(map[string]any{"history": []string{a.rules[0], a.rules[1], "<new list>", a.rules[0]}, "requests": len(a.requests)})
 		c.Run.Sample(map[string]any{"colliding_windows": []string{a.wA, a.wB}, "colliding_domains": []string{a.hA, a.hB}})
 		c.Run.Set("states", s.States)
@@ -308,4 +309,87 @@ func init() {
 		c.Run.Assumption("hash collisions other than the two constructed ones (one pair of 5-byte windows, one pair of host names) are not covered")
 		c.Run.Assumption("rule.Match on independently parsed rules is the definition of 'individually matches' (property C04 checks it)")
 	})
+}
+
+// c01Corpus compares the engine built over the bundled real-world lists with
+// the linear scan for the recorded real requests (all of them in the thorough
+// tier, a fixed stride in the quick tier).
+func c01Corpus(c *Ctx) {
+	var ls []filterlist.RuleList
+	type held struct {
+		rule *rules.NetworkRule
+		text string
+	}
+	var all []held
+	for li, rel := range []string{"testdata/easylist.txt", "examples/proxy/adguard_russian_filter.txt"} {
+		content := corpusContent(rel)
+		if content == "" {
+			continue
+		}
+		ls = append(ls, &filterlist.StringRuleList{ID: li, RulesText: content, IgnoreCosmetic: true})
+		for _, l := range corpusLines(rel) {
+			if r, err := rules.NewRule(l, li); err == nil && r != nil {
+				if nr, ok := r.(*rules.NetworkRule); ok {
+					all = append(all, held{nr, nr.RuleText})
+				}
+			}
+		}
+	}
+	reqs := corpusRequests()
+	if len(ls) == 0 || len(reqs) == 0 {
+		c.Run.Set("corpus_layer", "bundled lists or requests not found")
+		return
+	}
+	st, err := filterlist.NewRuleStorage(ls)
+	if err != nil {
+		panic(HarnessError(err.Error()))
+	}
+	ne := urlfilter.NewNetworkEngine(st)
+	stride := 16
+	if c.Thorough() {
+		stride = 1
+	}
+	var idx []int
+	for i := 0; i < len(reqs); i += stride {
+		idx = append(idx, i)
+	}
+	var mu sync.Mutex
+	var compared, nonEmpty int64
+	c.parallel(len(idx), func(k int) {
+		if c.Expired() {
+			return
+		}
+		r := reqs[idx[k]]
+		// as a URL request and, for its host, as a hostname request
+		qs := []*rules.Request{rules.NewRequest(r.URL, r.Frame, r.Type)}
+		if h := qs[0].Hostname; h != "" && k%4 == 0 {
+			qs = append(qs, rules.NewRequestForHostname(strings.ToLower(h)))
+		}
+		for _, q := range qs {
+			var want []string
+			for _, h := range all {
+				if h.rule.Match(q) {
+					want = append(want, h.text)
+				}
+			}
+			got := sortedSet(netTexts(ne.MatchAll(q)))
+			w := sortedSet(want)
+			mu.Lock()
+			compared++
+			if len(w) > 0 {
+				nonEmpty++
+			}
+			mu.Unlock()
+			if !eqStrings(got, w) {
+				lost, added := diffSets(w, got)
+				c.Run.Violate(ev.Violation{Pred: "corpus-matchall-equals-linear-scan", Sig: map[string]any{"lost": lost, "added": added},
+					What:   fmt.Sprintf("engine over the bundled lists, request %s (hostname request: %v): MatchAll returns %v, the linear scan gives %v", clip(q.URL), q.IsHostnameRequest, got, w),
+					Replay: map[string]any{"history": []int{}}})
+			}
+		}
+	})
+	c.Run.Set("corpus_rules", int64(len(all)))
+	c.Run.Set("corpus_requests_compared", compared)
+	c.Run.Set("corpus_requests_with_matches", nonEmpty)
+	c.Run.Set("corpus_stride", int64(stride))
 }
